@@ -204,6 +204,57 @@ def h_zero(env, spec, n, assign):
                      [want[i][j] for i in range(2 ** n) for j in range(2 ** n)], "zero rates == noiseless state", tol=1e-7)
 
 
+def h_model_history(env, case):
+    """the noise model as an object with a history: (a) an error registered AFTER the model has been used once is applied by
+    the next simulation; (b) a zero-rate entry registered first does not suppress the (symbolic-rate) entry registered after it."""
+    from tangelo.linq import Circuit, Gate
+    from tangelo.linq.noisy_simulation import NoiseModel
+    from fractions import Fraction as Fr
+    spec = [("RY", [0], []), ("CNOT", [1], [0])]
+    gates, params = build_gates(env, spec)
+    circ = Circuit(gates, n_qubits=2)
+    def rates(tag):
+        ps = [env.real(f"{tag}{a}", lo=0, hi=1) for a in "xyz"]
+        if env.symbolic:
+            env.assume(Cons((1 - (ps[0] + ps[1] + ps[2])).p, ">="), "px+py+pz <= 1")
+        elif sum(ps) > 1:
+            ps = [p / (sum(ps) + 0.1) for p in ps]
+        return ps
+    nm = NoiseModel()
+    if case == "extend-after-use":
+        p0 = env.real("p0", lo=0, hi=1)
+        nm.add_quantum_error("RY", "depol", p0)
+        _ = sorted(nm.noisy_gates)
+        b0 = backend(env, nm) if env.symbolic else backend(env, nm, n_shots=5)
+        b0.simulate(circ)
+        ps = rates("q")
+        nm.add_quantum_error("CNOT", "pauli", list(ps))
+        ref = {"RY": [("depol", p0)], "CNOT": [("pauli", ps)]}
+    elif case == "zero-first/pauli-depol":
+        p1 = env.real("p1", lo=0, hi=1)
+        nm.add_quantum_error("CNOT", "pauli", [0.0, 0.0, 0.0])
+        nm.add_quantum_error("CNOT", "depol", p1)
+        ref = {"CNOT": [("depol", p1)]}
+    else:
+        ps = rates("q")
+        nm.add_quantum_error("CNOT", "depol", 0.0)
+        nm.add_quantum_error("CNOT", "pauli", list(ps))
+        ref = {"CNOT": [("pauli", ps)]}
+    want = oracle_dm(spec, params, 2, ref)
+    if env.symbolic:
+        b = backend(env, nm)
+        b.simulate(circ)
+        rho = b.cirq.sampler_calls[0]["rho"]
+        tol = 1e-8
+    else:
+        b = backend(env, nm, n_shots=5)
+        b.simulate(circ)
+        rho = np.asarray(b._current_state)
+        tol = 1e-7
+    env.check_vec_eq([rho[i][j] for i in range(4) for j in range(4)], [want[i][j] for i in range(4) for j in range(4)],
+                     f"noise model history '{case}': density matrix == reference channels of the model as it stands", tol=tol)
+
+
 def h_reject(env, case):
     from tangelo.linq.noisy_simulation import NoiseModel
     from tangelo.linq import get_backend, Circuit, Gate
@@ -304,6 +355,8 @@ def shapes(tier, seed):
     ex = [(cases[2], [(0, "X"), (1, "Z")]), (cases[3], [(1, "Y")]), (cases[0], [(0, "Z")]), (cases[4], [(0, "X"), (1, "Y")])]
     for i, ((spec, n, assign), word) in enumerate(ex):
         out.append(Shape(f"expect/{i}", h_noisy_expect, dict(spec=spec, n=n, assign=assign, word=word), modules=MODS, max_paths=64))
+    for case in ("extend-after-use", "zero-first/pauli-depol", "zero-first/depol-pauli"):
+        out.append(Shape(f"model-history/{case}", h_model_history, dict(case=case), modules=MODS, max_paths=32))
     for case in ("type", "pauli-notlist", "pauli-len", "depol-list", "twice", "no-shots", "unsupported-backend", "prob>1", "prob<0",
                  "pauli-sum>1", "both-ok"):
         out.append(Shape(f"reject/{case}", h_reject, dict(case=case), modules=MODS))
